@@ -74,6 +74,7 @@ class C11(Check):
         "#input contigs; breaks == |J_in - J_out|, joins == |J_out - J_in| with J = set of unordered facing-end pairs of consecutive "
         "fragments; Haplotig assembly size == number of Haplotig-tagged pieces that survive. non-trivial = completed case with cuts, breaks or joins > 0 "
         "or with a reverse-strand fragment in the output"
+        " The fused assemblies are requested a second time and the numbers re-checked; CLI: log line and info.yaml (totals and haplotig removals) against the files written, incl. a two-haplotype family with joined contaminants."
     )
     assumptions = ["strand-0 contigs are outside the scope (statistics are undefined for them: the code raises)"]
     shard_timeout = {"quick": 600, "thorough": 5400}
